@@ -29,6 +29,9 @@
 
 #[path = "c05.rs"]
 mod c05;
+#[path = "c14.rs"]
+#[allow(dead_code)]
+mod c14;
 
 use std::cell::RefCell;
 
@@ -2141,6 +2144,52 @@ impl log::Log for StderrLog {
     fn flush(&self) {}
 }
 
+/// Real AccessControl / OperationalCredentials clusters (administrative device, two fabrics): an
+/// administrator of fabric 1 reads the ACL - fabric-filtered or not, alone and
+/// behind filler reports that make the responder serve it element by element. An entry of the
+/// other fabric discloses nothing but its fabric index (the fabric-sensitive fields of a struct
+/// are withheld from other fabrics), an entry of the own fabric is served in full, and a
+/// fabric-filtered read carries no entry of the other fabric at all.
+fn check_real_fabric_sensitive(case: &c14::real::RealCase) -> Case {
+    let mut case = case.clone();
+    // AccessControl::ACL only: the fields of AccessControlEntryStruct are fabric-sensitive. (The
+    // NOCs list is not a subject here: rs-matter follows the revised NOCStruct, whose noc / icac
+    // fields are no longer fabric-sensitive, and documents that at the handler.)
+    case.target = 0;
+    let o = match c14::real::run_real(&case) {
+        Ok(o) => o,
+        Err(c) => return c,
+    };
+    let what = format!("{:#x}/{:#x} (fabric-filtered: {}, {} filler reports, {} appended element by element)", o.target.1, o.target.2, case.fabric_filtered, case.fillers, o.appended);
+    let mut own = 0;
+    let mut foreign = 0;
+    for (src, elems) in [("read alone", &o.reference), ("read behind the fillers", &o.elems)] {
+        for e in elems.iter() {
+            let is_own = e.contains("(Ctx(254), U(1))");
+            if is_own {
+                own += 1;
+                if !e.contains("(Ctx(1), ") {
+                    return Case::fail("real:own-fabric-entry-incomplete", format!("{what}, {src}: an entry of the reader's fabric lacks its first field: {e}"));
+                }
+            } else {
+                foreign += 1;
+                if case.fabric_filtered {
+                    return Case::fail("real:fabric-filtered-read-lists-foreign-entry", format!("{what}, {src}: {e}"));
+                }
+                if e != "Struct([(Ctx(254), U(2))])" {
+                    return Case::fail("real:fabric-sensitive-fields-disclosed", format!("{what}, {src}: an entry of fabric 2 was served to an administrator of fabric 1 as {e}"));
+                }
+            }
+        }
+    }
+    if own == 0 {
+        return Case::fail("real:own-fabric-entry-missing", format!("{what}: no entry of the reader's fabric in the list"));
+    }
+    Case::pass(o.appended > 0 && foreign > 0)
+        .label(if o.appended > 0 { "served-element-by-element" } else { "served-whole" })
+        .label(if case.fabric_filtered { "fabric-filtered" } else { "not-fabric-filtered" })
+}
+
 fn main() {
     let _ = log::set_logger(&StderrLog);
     if std::env::var("VH_LOG").is_ok() {
@@ -2173,5 +2222,7 @@ fn main() {
     run.prop("dynamic-node", n_dyn, dynamic_case, |c| check_read(c, false));
     run.prop("group", n_group, group_case, check_group);
     run.prop("fabric-sensitive", n_fs, fabric_sensitive_case, |c| check_read(c, true));
+    let n_real = run.cases(5_000, 100_000);
+    run.prop("real-fabric-sensitive", n_real, c14::real::real_case, check_real_fabric_sensitive);
     run.finish();
 }
